@@ -39,6 +39,7 @@ def run(chk: Check) -> None:
     run_literal_conversion(chk, ix)
     run_floor_of_inexact_quotient(chk, ix)
     run_floor_divide_strength_reduction(chk, ix)
+    run_operand_order_kept(chk, ix)
 
     r1 = chk.rule("R15.1", "every emission of a raw C division/modulo IntOp is guarded against a zero divisor (and -1 for signed operands)", floor=4)
     llb = ix.cls("mypyc.irbuild.ll_builder.LowLevelIRBuilder")
@@ -471,3 +472,46 @@ def run_floor_divide_strength_reduction(chk: Check, ix) -> None:
     else:
         d, k = bad[0]
         r.violation(key, f.loc(rewrite), f"for the divisor {d} the guard `{norm(rewrite.test)}` holds and the shift is {k}, but {d} != 1 << {k}: `x // {d}` is compiled to `x >> {k}` (17 // {d} = {17 // d}, 17 >> {k} = {17 >> k if isinstance(k, int) and 0 <= k < 64 else '?'})")
+
+
+def run_operand_order_kept(chk: Check, ix) -> None:
+    """R15.12: the arithmetic dispatch hands its operands on in the order it received them."""
+    from ..cfg import branch_conditions
+    r12 = chk.rule("R15.12", "LowLevelIRBuilder.binary_op(lreg, rreg, op, line) dispatches on the operand types to helpers that take (left, right); `-`, `//`, `%`, `<<`, `>>` and the ordered comparisons are not commutative. Every call in its body whose arguments are both operands (the parameters or locals re-assigned from them by a coercion) passes them left-before-right, except under a test that restricts `op` to the containment operators (`in` / `not in`), whose helpers take the container first", floor=8)
+    cls = ix.cls("mypyc.irbuild.ll_builder.LowLevelIRBuilder")
+    f = cls.methods.get("binary_op")
+    if f is None:
+        raise AnalysisError("LowLevelIRBuilder.binary_op not found")
+    params = [a.arg for a in f.node.args.args]
+    if len(params) < 3:
+        raise AnalysisError("binary_op: expected (self, lreg, rreg, op, line)")
+    L, R_ = params[1], params[2]
+    par = f.module.parents()
+    n = 0
+    for c in ast.walk(f.node):
+        if not isinstance(c, ast.Call):
+            continue
+        flat = []
+        for a in c.args:
+            if isinstance(a, ast.Name) and a.id in (L, R_):
+                flat.append(a.id)
+            elif isinstance(a, (ast.List, ast.Tuple)):
+                flat += [e.id for e in a.elts if isinstance(e, ast.Name) and e.id in (L, R_)]
+        if L not in flat or R_ not in flat:
+            continue
+        n += 1
+        st = c
+        while not isinstance(st, ast.stmt):
+            st = par[st]
+        key = f"binary_op: `{norm(c.func)}(...)` receives the operands in source order"
+        if flat.index(L) < flat.index(R_):
+            r12.ok(key, f.loc(c))
+            continue
+        pos, _ = branch_conditions(par, f.node, st)
+        contain = any(("'in'" in norm(t) or '"in"' in norm(t)) and "op" in norm(t) for t in pos)
+        if contain:
+            r12.ok(key, f.loc(c), "containment: the helper takes the container (right operand) first")
+        else:
+            r12.violation(key, f.loc(c), f"`{norm(c)[:70]}` passes the right operand first under {[norm(t)[:40] for t in pos][-3:]}: `b OP n` is compiled as `n OP b`, so `False - 1` gives 1, `False // 3` raises ZeroDivisionError and `False << 3` gives 3 for a native-int right operand")
+    if n < 8:
+        raise AnalysisError(f"binary_op: only {n} calls taking both operands found")
